@@ -15,7 +15,7 @@ WRAP = -Wl,--wrap=pthread_create,--wrap=pthread_join,--wrap=dlsym,--wrap=epoll_c
 HARNESSES = $(patsubst $(V)/harness/%.c,%,$(wildcard $(V)/harness/c*.c))
 BINS = $(patsubst %,$(B)/h_%,$(HARNESSES))
 
-all: $(BINS) $(B)/h_c19_ctx_mmap $(B)/h_c19_ctx_uctx $(B)/h_c19_ctx_split
+all: $(BINS) $(B)/h_c19_ctx_mmap $(B)/h_c19_ctx_uctx $(B)/h_c19_ctx_split $(B)/h_c01_mixed_mmap $(B)/h_c01_mixed_uctx
 
 $(B)/lib/%.o: $(REPO)/src/%.c
 	@mkdir -p $(B)/lib
@@ -48,6 +48,17 @@ $(B)/hobj/c19_ctx_split.o: $(V)/harness/c19_ctx.c $(V)/sim/sim.h $(V)/harness/co
 	$(CC) $(ICF_SPLIT) -DC19_VARIANT=3 -MMD -MP -c $< -o $@
 $(B)/h_c19_ctx_split: $(B)/hobj/c19_ctx_split.o $(B)/lib/fiber_context_split.o $(LIBOBJS_NOCTX) $(RTOBJS) $(B)/hobj/regshim.o
 	$(CC) -fsplit-stack -o $@ $^ $(WRAP),--wrap=syscall -lpthread -ldl
+# the mixed whole-runtime programs against the other stack strategy / switching back-end
+$(B)/hobj/c01_mixed_mmap.o: $(V)/harness/c01_mixed.c $(V)/sim/sim.h $(V)/harness/common.h
+	@mkdir -p $(B)/hobj
+	$(CC) $(ICF) -DH_VARIANT_NAME='"c01_mixed_mmap"' -MMD -MP -c $< -o $@
+$(B)/hobj/c01_mixed_uctx.o: $(V)/harness/c01_mixed.c $(V)/sim/sim.h $(V)/harness/common.h
+	@mkdir -p $(B)/hobj
+	$(CC) $(ICF) -DH_VARIANT_NAME='"c01_mixed_uctx"' -MMD -MP -c $< -o $@
+$(B)/h_c01_mixed_mmap: $(B)/hobj/c01_mixed_mmap.o $(B)/lib/fiber_context_mmap.o $(LIBOBJS_NOCTX) $(RTOBJS) $(B)/hobj/regshim.o
+	$(CC) -o $@ $^ $(WRAP) -lpthread -ldl
+$(B)/h_c01_mixed_uctx: $(B)/hobj/c01_mixed_uctx.o $(B)/lib/fiber_context_uctx.o $(LIBOBJS_NOCTX) $(RTOBJS) $(B)/hobj/regshim.o
+	$(CC) -o $@ $^ $(WRAP),--wrap=swapcontext -lpthread -ldl
 $(B)/lib/fiber_context_mmap.o: $(REPO)/src/fiber_context.c
 	@mkdir -p $(B)/lib
 	$(CC) $(ICF_MMAP) -w -MMD -MP -c $< -o $@
